@@ -38,6 +38,9 @@ open Wire Enum
     pcomp <spin> <scalar|-> <bias_range> <poly_range|-> ; ignored ; poly → `ok rows` / `err value` / `err zerodiv`
                                                  (PolyScaleComposite.sample_poly total over scalar: `polyScaleCompositeFull`, exact child;
                                                  `err value` = the refusal of scalar 0, `err zerodiv` = a range end 0 with scalar None)
+    track <sample|ising|qubo> <spin> ; lin ; quad ; off ; lin ; quad ; off …   → `n#rows#rows…#out` : one TrackingComposite (exact child
+                                                 implementing `sample`) called once per (lin, quad, off) triple through that entry point
+                                                 (`trackingCall` folded from the empty log): log length, every logged output, `output`
     poly   = `bias@l&l&l|…`   fixed/lin = `l=v,…`   quad = `u&v=b,…`   reds = `u&v&p,…` -/
 
 def sepBy (c : String) (s : String) : List String := if s = "" ∨ s = "-" then [] else s.splitOn c
@@ -264,6 +267,25 @@ def answer (line : String) : String :=
       | .error .scalarZero => "err value"
       | .error .rangeZero => "err zerodiv"
     | _, _, _, _, _ => "bad"
+  | ["track", entry, spin] =>
+    let rec triples (i : Nat) (fuel : Nat) : Option (List TrackedInput) :=
+      match fuel with
+      | 0 => some []
+      | fuel + 1 =>
+        if i ≥ parts.length then some []
+        else
+          match parseAssign (field parts i), parseQuad (field parts (i + 1)), parseRat? (field parts (i + 2)) with
+          | some lin, some quad, some off =>
+            let inp : TrackedInput := if entry = "sample" then .bqm ⟨spin = "1", lin, quad, off⟩
+                                      else if entry = "ising" then .ising lin quad else .qubo lin quad
+            (triples (i + 3) fuel).map (inp :: ·)
+          | _, _, _ => none
+    match triples 1 parts.length with
+    | some inputs =>
+      let log : TrackLog := inputs.foldl (fun log inp => (trackingCall .sample exactBqm log inp).2) []
+      String.intercalate "#" ([toString log.length] ++ log.map (fun e => showRows e.2) ++
+        [match trackingOutput log with | some o => showRows o | none => "none"])
+    | none => "bad"
   | ["pfull", spin, ch, fx] =>
     match parsePoly (field parts 1), parseAssign (field parts 2) with
     | some p, some fixed =>
